@@ -1,7 +1,7 @@
 (* C17 — qarray: element addressing, ownership and iteration.  Property theorems only;
    the proofs are in Qarray/Proofs.v, the model in Qarray/Model.v (tied to /repo by ./check C17). *)
 From Coq Require Import List NArith.
-From QV Require Import Qarray.Model Qarray.Proofs Qarray.ProofsHash.
+From QV Require Import Qarray.Model Qarray.Proofs Qarray.ProofsHash Qarray.ProofsDist.
 Local Open Scope N_scope.
 
 (* For every count, object size, distribution, tight flag, seg_pages, page size and shepherd count that the
@@ -75,6 +75,17 @@ Example c17_hash_nonvacuous :
   let a := create 5000 8 dFIXED_HASH false 1 4096 3 0 in
   d_kind a = FIXED_HASH /\ 0 < d_segsize a /\ (512 mod d_segsize a = 0) /\ 512 < 4000 <= d_count a.
 Proof. vm_compute. repeat split; discriminate. Qed.
+
+(* DIST arrays (DIST, DIST_RAND, DIST_STRIPES, DIST_FIELDS, DIST_LEAST: any assignment asg of segments to valid
+   shepherds): same statement, same guard. *)
+Theorem c17_iter_exact_dist_aligned :
+  forall nsheps asg a start stop,
+    d_kind a = DIST -> 0 < nsheps -> 0 < d_segsize a -> (forall q, asg q < nsheps) ->
+    start mod d_segsize a = 0 -> start < stop ->
+    iter_exact nsheps asg a start stop (iter nsheps asg a start stop) /\
+    iter_exact nsheps asg a start stop (iter_loop nsheps asg a start stop).
+Proof. intros nsheps asg a start stop K Hn Hss Hasg. exact (iter_exact_dist_aligned nsheps asg a K Hn Hss Hasg start stop). Qed.
+Print Assumptions c17_iter_exact_dist_aligned.
 
 (* The full statement (iter_exact for every kind and every sub-range) is FALSE of the faithful model, i.e. of
    the unchanged code: witnesses (replayed on the real code by ./check C17; known_findings.json). *)
